@@ -153,6 +153,8 @@ pub struct Model {
     pub memo_live: BTreeMap<(usize, i64), Hid>,
     pub memo_srcs: Vec<Hid>,
     pub memo_held: Vec<bool>,
+    /// observers that ever subscribed / unsubscribed / were disallowed or dropped, per node
+    pub lifecycle_ops: BTreeMap<Hid, BTreeSet<usize>>,
     /// nodes reachable from the driver's handles when the current stabilise started
     pub reach_start: BTreeSet<Hid>,
     pub nodes_at_round_start: usize,
@@ -197,6 +199,7 @@ impl Model {
             memo_live: BTreeMap::new(),
             memo_srcs: vec![],
             memo_held: vec![],
+            lifecycle_ops: BTreeMap::new(),
             reach_start: BTreeSet::new(),
             nodes_at_round_start: 0,
             leak_checks: 0,
